@@ -11,6 +11,9 @@ CONSTANTS
   MidCrash = TRUE
   Timeouts = FALSE
   MaxWriteFaults = 0
+  MaxReadFaults = 0
+  ReadKinds = {}
+  ReadFix = FALSE
 INVARIANT ContainerOK
 INVARIANT TopIsHeight
 INVARIANT StorageShape
